@@ -11,6 +11,12 @@ CHECKS = {
     "C01": ("boundary monitor on deserialize + executable reference model of the documented data model (differential oracle)",
             "Exploration: every generated (type program, options, datum) is executed through the real deserialize and its verdict and typed image are compared with a reference model written from the documentation; held on the K executions reported in the evidence, which lists compiled-tree node classes reached.",
             "Trusted: the reference model (vf/spec.py) and its abstention zones; generators stay inside the supported grammar.", "DESIGN §5 C01"),
+    "C02": ("monitor on ValidationError.errors of rejected calls: model-free additivity of independent violations + reference-model location/kind sets + canonical-order / determinism checker",
+            "Exploration: errors lists of rejected generated data (k=1..5 simultaneous violations) are compared with the model's set of (location, rule) pairs; pairs of independent single violations must add up; the list must equal its own canonical re-flattening and be independent of dict insertion order.",
+            "Trusted: reference model for locations; tagged settings.errors messages to read rule kinds; additivity restricted to union-free programs.", "DESIGN §5 C02"),
+    "C03": ("boundary monitor on deserialize with hostile non-JSON inputs: outcome trichotomy, input/class fingerprints, errors JSON-serialisability, sys.monitoring step budget",
+            "Exploration: every call on hostile data must return or raise ValidationError, leave input and user classes untouched, and finish within a logical step budget; held on the executions reported (hostile/coerce/no_copy/deep call counts in the evidence).",
+            "Trusted: fingerprint walker; step budget constant; RecursionError beyond 200 nesting levels is the recorded finding F11.", "DESIGN §5 C03"),
 }
 PLANNED = {
 }
